@@ -51,6 +51,9 @@ class Frame:
         # parameters bound to a plain name / attribute path
         self.bindings = {}
         self.arg_exprs = {}     # param -> (any argument expression, frame)
+        # what landed in *args at this call: [(expression, frame)], or None
+        # when it is not known (a star argument that cannot be expanded)
+        self.star_args = None
         self.children = []
         if parent is not None:
             parent.children.append(self)
@@ -1722,10 +1725,34 @@ class Builder:
             b.extra.update(param=params[0], arg=recv, arg_frame=af,
                            is_self=True)
             params = params[1:]
+        # positional arguments with `*args` of the calling function expanded
+        # to what it was given (a wrapper that forwards its star arguments)
+        xargs, known = [], True
+        cur_va = af.ctx.func.node.args.vararg
+        for a in args:
+            if isinstance(a, ast.Starred):
+                if isinstance(a.value, ast.Name) and cur_va is not None and \
+                        a.value.id == cur_va.arg and \
+                        af.star_args is not None and not any(
+                            isinstance(y, ast.Name) and y.id == cur_va.arg
+                            and isinstance(y.ctx, ast.Store)
+                            for y in ast.walk(af.ctx.func.node)):
+                    xargs.extend(af.star_args)
+                else:
+                    known = False
+                    break
+            else:
+                xargs.append((a, af))
+        if known and f.node.args.vararg is not None:
+            callee.star_args = xargs[len(params):]
         for i, pname in enumerate(params):
             arg = None
-            if i < len(args) and not isinstance(args[i], ast.Starred):
+            this_af = af
+            if i < len(args) and not any(isinstance(a0, ast.Starred)
+                                         for a0 in args[:i + 1]):
                 arg = args[i]
+            elif known and i < len(xargs):
+                arg, this_af = xargs[i]
             else:
                 for k in e.keywords:
                     if k.arg == pname:
@@ -1742,15 +1769,15 @@ class Builder:
                         not any(k.arg is None for k in e.keywords):
                     default = f.node.args.defaults[di]
             b = self._emit('bind', None, callee)
-            b.extra.update(param=pname, arg=arg, arg_frame=af,
+            b.extra.update(param=pname, arg=arg, arg_frame=this_af,
                            default=default, is_self=False)
             if arg is not None:
-                callee.arg_exprs[pname] = (arg, af)
+                callee.arg_exprs[pname] = (arg, this_af)
             if arg is not None and (isinstance(arg, (ast.Name,
                                                      ast.Attribute)) or (
                     isinstance(arg, ast.Call) and
                     ast.unparse(arg.func).endswith('partial') and arg.args)):
-                callee.bindings[pname] = (arg, af)
+                callee.bindings[pname] = (arg, this_af)
         self._body(f.node.body, callee)
         if thread:
             # falling off the end returns None
